@@ -335,6 +335,12 @@ inductive Expr where
   | cref (e : Expr)
   deriving Repr, Inhabited
 
+/-- an environment: values of integer leaves, boolean leaves, enum leaves, by id -/
+structure Env where
+  i : Nat → Int
+  b : Nat → Bool
+  e : Nat → Int
+
 /-- Three-way result of `ir_util.constant_value`. -/
 inductive CV where
   | crash
